@@ -56,7 +56,7 @@ Pad4(n) == IF n < 10 THEN "000" \o NatStr(n) ELSE IF n < 100 THEN "00" \o NatStr
 (***************************************************************************)
 AsciiLower == {"a","b","c","d","e","f","g","h","i","j","k","l","m","n","o","p","q","r","s","t","u","v","w","x","y","z"}
 AsciiUpper == {"A","B","C","D","E","F","G","H","I","J","K","L","M","N","O","P","Q","R","S","T","U","V","W","X","Y","Z"}
-OtherLetters == {"ä", "Ä", "ß", "日", "Σ", "σ", "é"}
+OtherLetters == {"ä", "Ä", "ß", "日", "本", "語", "読", "む", "Σ", "σ", "é", "ö", "ü", "ï"}
 Letters == AsciiLower \cup AsciiUpper \cup OtherLetters
 IsLetter(c) == c \in Letters
 
